@@ -30,4 +30,23 @@ theorem C06_fact_holds_for_current_config (s : St)
   have := C06_stop_drained _ s h hd
   exact ⟨this.1, this.2.1, this.2.2.2.1, this.2.2.2.2.2.2.1, this.2.2.2.2.2.2.2.2.1⟩
 
+/-- `connector.Service.WaitPersisted` — the durability barrier `StopAndWait` relies on before a stopped
+pipeline's connectors may be re-created — is exactly the UNBOUNDED `Persister.WaitPendingWrites` (no
+context / timeout variant), and that function waits on plain receives of the latest generation's
+`writeDone` and `callbacksDone` (model: `waitPersisted` is enabled only when the latest generation
+has finished writing and its callbacks have returned; there is no timeout event for it). With a
+bounded barrier a late commit of the stopped incarnation could overwrite a re-created connector and
+a crash would reopen it at the old position. -/
+theorem C06_fact_waitPersisted_is_unbounded_barrier :
+    serviceWaitPersistedCalls = ["s.persister.WaitPendingWrites"] ∧
+    waitPendingWritesReceives = ["<-st.writeDone", "<-st.callbacksDone"] ∧
+    waitPendingWritesUnbounded = true := by decide
+
+/-- `triggerFlush` waits for a still-running previous flush with a plain receive — no select, no timer:
+Teardown's forced `Flush` therefore returns only after the newest batch has been handed to a flush
+generation (model: `tdFlush` is enabled only when no generation is writing and then takes the
+batch), so Teardown's wait covers the newest acks and they are delivered before the plugin is torn
+down (`C06_stop_drained`). -/
+theorem C06_fact_triggerFlush_waits_unconditionally : triggerFlushWaitsUnconditionally = true := by decide
+
 end Conduit.Facts.C06
